@@ -239,6 +239,8 @@ parseinit(struct scope *s, struct type *t)
 				focus(&p);
 		}
 		if (consume(TLBRACE)) {
+			if (p.cur && !p.sub->type->incomplete && !(p.sub->type->prop & PROPSCALAR))
+				initclear(&p);
 			if (consume(TRBRACE)){
 				if (p.sub->type->incomplete)
 					error(&tok.loc, "array of unknown size has empty initializer");
@@ -250,8 +252,6 @@ parseinit(struct scope *s, struct type *t)
 				assert(p.cur->type->kind == TYPEARRAY);
 				focus(&p);
 			}
-			if (p.cur && !p.sub->type->incomplete)
-				initclear(&p);
 			p.cur = p.sub;
 			p.cur->iscur = true;
 			continue;
